@@ -30,7 +30,7 @@ class Prop(common.PropertyCheck):
             D = rng.randrange(2, 6)
             nc = rng.randrange(1, D + 1)
             yield {'k': 'mef', 'cont': rng.choice(['sample', 'sample', 'array']), 'D': D, 'nc': nc, 'seed': rng.randrange(1 << 30),
-                   'req': rng.choice(['none', 'scalar', 'subset', 'subset', 'all_reordered', 'uncovered']),
+                   'req': rng.choice(['none', 'scalar', 'subset', 'subset', 'all_reordered', 'uncovered', 'empty']), 'negdata': rng.random() < 0.4,
                    'scform': rng.choice(['names', 'pos', 'mixed', 'default']), 'bad': rng.choice([None] * 9 + ['len']),
                    'neg': rng.random() < 0.25}
         # samples of more than 2**20 events, not a multiple of it (block-wise implementations)
@@ -44,11 +44,11 @@ class Prop(common.PropertyCheck):
         r = random.Random(case['seed'])
         D, nc = case['D'], case['nc']
         if case['cont'] == 'sample':
-            spec = samples.spec_rich(r, N=r.choice([0, 1, 9]), D=D, datatype='I')
+            spec = samples.spec_rich(r, N=r.choice([0, 1, 9]), D=D, datatype='F' if case.get('negdata') else 'I')
             d, _ = samples.load(spec, name='c06.fcs')
             names = list(d.channels)
         else:
-            d = np.array([[r.randrange(0, 1024) for _ in range(D)] for _ in range(r.choice([0, 1, 9]))], dtype=np.float64).reshape(-1, D)
+            d = np.array([[r.randrange(-300 if case.get('negdata') else 0, 1024) for _ in range(D)] for _ in range(r.choice([0, 1, 9]))], dtype=np.float64).reshape(-1, D)
             names = None
         cols = r.sample(range(D), nc)              # column of curve k is cols[k]
         form = case['scform']
@@ -71,6 +71,10 @@ class Prop(common.PropertyCheck):
             return names[c] if (names and r.random() < 0.5) else c
         if req == 'none':
             channels, want = None, list(cols)
+        elif req == 'empty':
+            # an explicitly empty request converts nothing
+            channels, want = r.choice([[], (), []]), []
+            channels = list(channels)
         elif req == 'scalar':
             c = r.choice(cols); channels, want = spell2(c), [c]
         elif req == 'subset':
